@@ -77,7 +77,7 @@ def check(tier: str, seed: int) -> int:
             est = "abs" if c["entrySp"]["abs"] else "dot" if c["entrySp"]["dot"] else "plain"
             crossing = [h["file"][:-1] != (c["entry"] if i == 0 else c["chain"][i - 1]["file"])[:-1] for i, h in enumerate(c["chain"])]
             run.violation(f"{cl}|hops={len(c['chain'])}|styles={'+'.join(styles) or '-'}|entry={est}|cwd_is_entry_dir={c['cwd'] == c['entry'][:-1]}"
-                          f"|crosses_dir={any(crossing)}", cl,
+                          f"|crosses_dir={any(crossing)}|chdir_between_hops={any(h.get('at', c['cwd']) != c['cwd'] for h in c['chain'])}", cl,
                           {"case": {k: c[k] for k in ("cwd", "entry", "entrySp", "chain", "fault")}, "observed": o, "all_clauses": bad})
     for c, o in list(zip(cases, obs))[:: max(1, len(cases) // 5)][:5]:
         run.sample({"cwd": "/".join(c["cwd"]), "entry": "/".join(c["entrySp"]["comps"]), "hops": ["/".join(h["sp"]["comps"]) for h in c["chain"]],
@@ -87,4 +87,5 @@ def check(tier: str, seed: int) -> int:
     return run.finish(rule=("every case of Imports.tla (entry file, <= MaxHops imports with abs/./plain spellings across directories, "
                             "working directory, entry spelling, faulty last argument) is materialised with decoy files of the same name "
                             "in every directory, looked up through the real parse_file / Import.__getitem__, and judged by TLC "
-                            "(Imports_Trace) by re-resolving the spellings with Target(); distinct by case"))
+                            "(Imports_Trace) by re-resolving the spellings with Target(); the working directory may change before each hop "
+                            "(field at of the hop: open, chdir, follow); distinct by case"))
